@@ -49,6 +49,11 @@ class ExecutionPlanner:
             lt = stack.pop()
 
             if lt.state == LoweringState.FIRST_VISIT:
+                if lt.task.identifier in visited:
+                    # This task was reached through more than one path and has
+                    # already been processed; it must only be lowered once.
+                    continue
+
                 # First visit to this task.
                 visited[lt.task.identifier] = lt
 
@@ -151,6 +156,8 @@ class ExecutionPlanner:
 
                 # Hook the new dependency into the graph.
                 for dep in lt.deps:
+                    # Always link against the (single) lowered instance.
+                    dep = visited[dep.task.identifier]
                     for dep_op in dep.output_ops:
                         new_op.add_exe_dep(dep_op)
                         dep_op.add_dep_of(new_op)
